@@ -103,7 +103,7 @@ def cap_runouts(state):
 class World:
     def __init__(self, ch, ctx, cfg, monitors=(), *, profile=None, dealer=None, run_key='k',
                  autos_mask=None, muck_num=1, runout_prefs=(None, 1, 2, 2, 3), partial_show=True,
-                 explicit_index_num=1, commentary_num=0, adopt=None):
+                 explicit_index_num=1, commentary_num=0, adopt=None, free_showdown_num=1):
         self.ch = ch
         self.ctx = ctx
         self.cfg = cfg
@@ -126,6 +126,7 @@ class World:
         self.tick_cap = 400 + 60 * self.n
         self.autos_mask = cfg['autos'] if autos_mask is None else autos_mask
         self.commentary_num = commentary_num
+        self.free_showdown_num = free_showdown_num
         if adopt is not None:
             self.state = adopt
             self.constructing = False
@@ -343,11 +344,18 @@ class World:
     def show(self, s):
         ch = self.ch
         i = s.showdown_index
+        extra = ()
+        order = list(s.showdown_indices)
+        if len(order) > 1 and self.free_showdown_num and ch.chance('show.order', self.free_showdown_num, 4):
+            i = order[ch.pick('show.order.idx', len(order))]      # any player still to show may go first
+            extra = (i,)
+        elif ch.chance('show.explicit_idx', 1, 6):
+            extra = (i,)
         if any(not c for c in s.hole_cards[i]):
             # hidden cards: the player reveals real cards for the unknown slots (or gives up)
-            forced = s.mode == Mode.TOURNAMENT and (s.all_in_status or True)
+            forced = s.mode == Mode.TOURNAMENT
             if not forced and self.muck_num and ch.chance('show.hidden.muck', 1, 6):
-                self.apply('show_or_muck_hole_cards', False)
+                self.apply('show_or_muck_hole_cards', False, *extra)
                 return
             pool = sorted((c for c in s.deck_cards if c), key=repr)
             out = []
@@ -357,7 +365,7 @@ class World:
                 else:
                     out.append(pool.pop(ch.pick('show.reveal', len(pool))))
             self.ctx.count('revealed_unknown_cards')
-            self.apply('show_or_muck_hole_cards', cards_str(out))
+            self.apply('show_or_muck_hole_cards', cards_str(out), *extra)
             return
         # 0: engine decides, 1: show all, 2: voluntary muck, 3: explicit own cards, 4: partial show
         w = [8, 3, 0, 2, 0]
@@ -368,22 +376,25 @@ class World:
                 w[4] = 1
         k = ch.weighted('show.kind', w)
         if k == 0:
-            self.apply('show_or_muck_hole_cards')
+            if extra:
+                self.apply('show_or_muck_hole_cards', None, *extra)
+            else:
+                self.apply('show_or_muck_hole_cards')
         elif k == 1:
-            self.apply('show_or_muck_hole_cards', True)
+            self.apply('show_or_muck_hole_cards', True, *extra)
         elif k == 2:
-            self.apply('show_or_muck_hole_cards', False)
+            self.apply('show_or_muck_hole_cards', False, *extra)
         elif k == 3:
-            self.apply('show_or_muck_hole_cards', cards_str(s.hole_cards[i]))
+            self.apply('show_or_muck_hole_cards', cards_str(s.hole_cards[i]), *extra)
         else:
             held = [c for c in s.hole_cards[i] if c]
             m = 1 + ch.pick('show.partial.k', max(1, len(held) - 1))
             arg = cards_str(held[:m])
-            if s.can_show_or_muck_hole_cards(arg):
-                self.apply('show_or_muck_hole_cards', arg)
+            if s.can_show_or_muck_hole_cards(arg, *extra):
+                self.apply('show_or_muck_hole_cards', arg, *extra)
                 self.partial_marks[id(self.decisions[-1][1])] = True
             else:
-                self.apply('show_or_muck_hole_cards')
+                self.apply('show_or_muck_hole_cards', None, *extra)
 
     def raise_(self, s):
         ch = self.ch
